@@ -638,6 +638,134 @@ static int op_mzp_window(ctx_t *c, const long *a) { /* P begin end : create and 
 static int op_col_swap(ctx_t *c, const long *a) { mzd_t *A = MAT(a[0]); REQ(A && a[1] >= 0 && a[2] >= 0 && a[1] < A->ncols && a[2] < A->ncols && A->nrows > 0); L->m4shim_col_swap(A, (rci_t)a[1], (rci_t)a[2]); return OP_OK; }
 static int op_row_swap(ctx_t *c, const long *a) { mzd_t *A = MAT(a[0]); REQ(A && a[1] >= 0 && a[2] >= 0 && a[1] < A->nrows && a[2] < A->nrows && A->ncols > 0); L->m4shim_row_swap(A, (rci_t)a[1], (rci_t)a[2]); return OP_OK; }
 static int op_row_add(ctx_t *c, const long *a) { mzd_t *A = MAT(a[0]); REQ(A && a[1] >= 0 && a[2] >= 0 && a[1] < A->nrows && a[2] < A->nrows && a[1] != a[2] && a[3] >= 0 && a[3] < A->ncols); L->m4shim_row_add_offset(A, (rci_t)a[1], (rci_t)a[2], (rci_t)a[3]); return OP_OK; }
+/* ---- smaller public entry points (row/bit level, statistics, printing) ---- */
+static int owned_reg(ctx_t *c, long r) { return ISREG(r) && c->m[r] && c->parent[r] < 0 && !c->hid[r]; }
+static int op_row_add_full(ctx_t *c, const long *a) { /* A src dst */
+  mzd_t *A = MAT(a[0]);
+  REQ(A && A->ncols > 0 && a[1] >= 0 && a[2] >= 0 && a[1] < A->nrows && a[2] < A->nrows && a[1] != a[2]);
+  L->mzd_row_add(A, (rci_t)a[1], (rci_t)a[2]);
+  return OP_OK;
+}
+static int op_copy_row(ctx_t *c, const long *a) { /* B i A j */
+  mzd_t *B = MAT(a[0]), *A = MAT(a[2]);
+  REQ(A && B && A->ncols > 0 && B->ncols >= A->ncols && a[1] >= 0 && a[1] < B->nrows && a[3] >= 0 && a[3] < A->nrows);
+  REQ(!overlaps_reg(c, a[0], a[2]) || a[1] != a[3]);
+  L->mzd_copy_row(B, (rci_t)a[1], A, (rci_t)a[3]);
+  return OP_OK;
+}
+static int op_col_swap_rows(ctx_t *c, const long *a) { /* A cola colb r0 r1 */
+  mzd_t *A = MAT(a[0]);
+  REQ(A && a[1] >= 0 && a[2] >= 0 && a[1] < A->ncols && a[2] < A->ncols && a[3] >= 0 && a[3] < a[4] && a[4] <= A->nrows);
+  L->m4shim_col_swap_in_rows(A, (rci_t)a[1], (rci_t)a[2], (rci_t)a[3], (rci_t)a[4]);
+  return OP_OK;
+}
+static int op_gauss(ctx_t *c, const long *a) { /* A startcol full */
+  mzd_t *A = MAT(a[0]);
+  REQ(A && A->nrows > 0 && A->ncols > 0 && a[1] >= 0 && a[1] <= A->ncols && a[1] <= A->nrows);
+  push_ret(c, L->mzd_gauss_delayed(A, (rci_t)a[1], a[2] != 0));
+  return OP_OK;
+}
+static int op_density(ctx_t *c, const long *a) { /* A res r c sub */
+  mzd_t *A = MAT(a[0]);
+  REQ(A && A->nrows > 0 && A->ncols > 0 && a[1] >= 0 && a[2] >= 0 && a[2] < A->nrows && a[3] >= 0 && a[3] < A->ncols);
+  double d = a[4] ? L->_mzd_density(A, (wi_t)a[1], (rci_t)a[2], (rci_t)a[3]) : L->mzd_density(A, (wi_t)a[1]);
+  push_ret(c, (long)(d * 1e12));
+  return OP_OK;
+}
+static int op_find_pivot(ctx_t *c, const long *a) { /* A r c */
+  mzd_t *A = MAT(a[0]);
+  REQ(A && A->nrows > 0 && A->ncols > 0 && a[1] >= 0 && a[1] < A->nrows && a[2] >= 0 && a[2] < A->ncols);
+  rci_t r = -7, cc = -7;
+  int f = L->mzd_find_pivot(A, (rci_t)a[1], (rci_t)a[2], &r, &cc);
+  push_ret(c, f);
+  if (f) { push_ret(c, r); push_ret(c, cc); }
+  return OP_OK;
+}
+static word rc_cb(void *d) { uint64_t *s = (uint64_t *)d; *s += 0x9e3779b97f4a7c15ULL; return (word)sm64_mix(*s); }
+static int op_randomize_custom(ctx_t *c, const long *a) { /* A seed */
+  mzd_t *A = MAT(a[0]);
+  REQ(A && A->nrows > 0 && A->ncols > 0);
+  uint64_t s = (uint64_t)a[1];
+  L->mzd_randomize_custom(A, rc_cb, &s);
+  return OP_OK;
+}
+static int op_row_clear_offset(ctx_t *c, const long *a) { /* A row coloffset ; owner matrices only: the call clears whole trailing words */
+  mzd_t *A = MAT(a[0]);
+  REQ(A && owned_reg(c, a[0]) && c->nwin[a[0]] == 0 && a[1] >= 0 && a[1] < A->nrows && a[2] >= 0 && a[2] < A->ncols);
+  L->mzd_row_clear_offset(A, (rci_t)a[1], (rci_t)a[2]);
+  return OP_OK;
+}
+static int op_bits(ctx_t *c, const long *a) { /* A x y n kind v */
+  mzd_t *A = MAT(a[0]);
+  REQ(A && a[1] >= 0 && a[1] < A->nrows && a[2] >= 0 && a[3] >= 1 && a[3] <= 64 && a[2] + a[3] <= A->ncols && a[4] >= 0 && a[4] <= 4);
+  int n = (int)a[3];
+  word v = (word)sm64_mix((uint64_t)a[5]);
+  word lo = n == 64 ? v : (v & ((m4ri_one << n) - 1));
+  switch (a[4]) {
+  case 0: { word w = L->m4shim_read_bits(A, (rci_t)a[1], (rci_t)a[2], n); push_ret(c, (long)(w >> 32)); push_ret(c, (long)(w & 0xffffffffu)); break; }
+  case 1: push_ret(c, L->m4shim_read_bits_int(A, (rci_t)a[1], (rci_t)a[2], n > 31 ? 31 : n)); break;
+  case 2: L->m4shim_xor_bits(A, (rci_t)a[1], (rci_t)a[2], n, lo); break;
+  case 3: REQ(owned_reg(c, a[0]) && c->nwin[a[0]] == 0); L->m4shim_and_bits(A, (rci_t)a[1], (rci_t)a[2], n, v); break; /* clears the rest of the word(s) it touches */
+  case 4: L->m4shim_clear_bits(A, (rci_t)a[1], (rci_t)a[2], n); break;
+  }
+  return OP_OK;
+}
+static int op_combine(ctx_t *c, const long *a) { /* C cr A ar B br startblock ; C[cr, sb..] = A[ar, sb..] + B[br, sb..] */
+  mzd_t *C = MAT(a[0]), *A = MAT(a[2]), *B = MAT(a[4]);
+  REQ(A && B && C && A->ncols > 0 && A->ncols == B->ncols && A->ncols == C->ncols);
+  REQ(a[1] >= 0 && a[1] < C->nrows && a[3] >= 0 && a[3] < A->nrows && a[5] >= 0 && a[5] < B->nrows && a[6] >= 0 && a[6] < A->width);
+  L->m4shim_combine(C, (rci_t)a[1], (wi_t)a[6], A, (rci_t)a[3], (wi_t)a[6], B, (rci_t)a[5], (wi_t)a[6]);
+  return OP_OK;
+}
+static int op_m4rm_step(ctx_t *c, const long *a) { /* A r col k : Gray code table of rows r..r+k-1 from column col, applied to all other rows */
+  mzd_t *A = MAT(a[0]);
+  REQ(A && A->nrows > 0 && A->ncols > 0 && a[3] >= 1 && a[3] <= 8 && a[1] >= 0 && a[1] < A->nrows && a[2] >= 0 && a[2] + a[3] <= A->ncols);
+  int k = (int)a[3];
+  mzd_t *T = L->mzd_init(1 << k, A->ncols);
+  rci_t Lt[256]; /* on the caller's (simulated thread's) stack: harness heap memory is invisible to the access monitor's free/alloc bookkeeping */
+  for (int i = 0; i < (1 << k); i++) Lt[i] = 0;
+  L->mzd_make_table(A, (rci_t)a[1], (rci_t)a[2], k, T, Lt);
+  L->mzd_process_rows(A, 0, (rci_t)a[1], (rci_t)a[2], k, T, Lt);
+  if (a[1] + k < A->nrows) L->mzd_process_rows(A, (rci_t)(a[1] + k), A->nrows, (rci_t)a[2], k, T, Lt);
+  push_ret(c, (long)mat_hash(T, FNV0) & 0x7fffffff);
+  if (mat_padding_dirty(T)) c->pad_violation = (int)a[0];
+  L->mzd_free(T);
+  return OP_OK;
+}
+static int op_trtri_russian(ctx_t *c, const long *a) { /* A k */
+  mzd_t *A = MAT(a[0]);
+  REQ(A && A->nrows == A->ncols && A->nrows > 0 && a[1] >= 0 && a[1] <= 8);
+  REQ(is_unit_upper(A));
+  L->mzd_trtri_upper_russian(A, (int)a[1]);
+  return OP_OK;
+}
+static int op_hash(ctx_t *c, const long *a) { /* A */
+  mzd_t *A = MAT(a[0]);
+  REQ(A && A->nrows > 0 && A->ncols > 0);
+  word w = L->m4shim_hash(A);
+  push_ret(c, (long)(w >> 32)); push_ret(c, (long)(w & 0xffffffffu));
+  return OP_OK;
+}
+static int op_fprint(ctx_t *c, const long *a) { /* A : text form through a memory stream of the harness */
+  mzd_t *A = MAT(a[0]);
+  REQ(A && A->nrows > 0 && A->ncols > 0);
+  char *buf = NULL; size_t len = 0;
+  FILE *f = open_memstream(&buf, &len);
+  REQ(f != NULL);
+  L->m4shim_fprint(f, A);
+  fclose(f);
+  push_ret(c, (long)(fnv1a(buf, len, FNV0) & 0x7fffffffffffffffULL));
+  push_ret(c, (long)len);
+  free(buf);
+  return OP_OK;
+}
+static int op_info(ctx_t *c, const long *a) { /* A do_rank : prints to stdout (discarded); runs density, hash and a rank computation on a copy */
+  mzd_t *A = MAT(a[0]);
+  REQ(A && A->nrows > 0 && A->ncols > 0);
+  L->mzd_info(A, a[1] != 0);
+  return OP_OK;
+}
+static int op_mzp_set_ui(ctx_t *c, const long *a) { mzp_t *P = PERM(a[0]); REQ(P); L->mzp_set_ui(P, (unsigned)a[1]); return OP_OK; }
 /* ---- I/O (through the simulated file layer) ---- */
 static const char *fname(long i, char *buf) { snprintf(buf, 32, "/sim/f%ld", i); return buf; }
 static int op_to_png(ctx_t *c, const long *a) { /* A file level commentkind */
@@ -787,6 +915,22 @@ const opdesc_t op_table[] = {
   { "col_swap", op_col_swap, 3, "A i j" },
   { "row_swap", op_row_swap, 3, "A i j" },
   { "row_add", op_row_add, 4, "A dst src coloffset" },
+  { "row_add_full", op_row_add_full, 3, "A src dst" },
+  { "copy_row", op_copy_row, 4, "B i A j" },
+  { "col_swap_rows", op_col_swap_rows, 5, "A cola colb r0 r1" },
+  { "gauss", op_gauss, 3, "A startcol full" },
+  { "density", op_density, 5, "A res r c sub" },
+  { "find_pivot", op_find_pivot, 3, "A r c" },
+  { "randomize_custom", op_randomize_custom, 2, "A seed" },
+  { "row_clear_offset", op_row_clear_offset, 3, "A row coloffset" },
+  { "bits", op_bits, 6, "A x y n kind v" },
+  { "combine", op_combine, 7, "C cr A ar B br startblock" },
+  { "m4rm_step", op_m4rm_step, 4, "A r col k" },
+  { "trtri_russian", op_trtri_russian, 2, "A k" },
+  { "hash", op_hash, 1, "A" },
+  { "fprint", op_fprint, 1, "A" },
+  { "info", op_info, 2, "A do_rank" },
+  { "mzp_set_ui", op_mzp_set_ui, 2, "P v" },
   { "to_png", op_to_png, 4, "A file level comment" },
   { "from_png", op_from_png, 2, "R file" },
   { "from_jcf", op_from_jcf, 2, "R file" },
@@ -836,7 +980,7 @@ int prog_exec_line(ctx_t *c, const char *line) {
     long r = atol(w[1]), m = atol(w[2]), nn = atol(w[3]), r0 = atol(w[7]), c0w = atol(w[8]), er = atol(w[9]), ec = atol(w[10]);
     if (!ISREG(r) || c->m[r] || m < 1 || nn < 1 || m > 20000 || nn > 20000 || r0 < 0 || c0w < 0 || er < 0 || ec < 0 || r0 > 64 || c0w > 8 || er > 64 || ec > 200) { c->skipped = 1; return 1; }
     mzd_t *P = Lb->mzd_init((rci_t)(m + r0 + er), (rci_t)(c0w * 64 + nn + ec));
-    gen_fill(P, "rand", 128, strtoull(w[6], NULL, 10) ^ 0x77696e646f77ULL); /* what surrounds the view: the same in every world */
+    gen_fill(P, "rand", 128, strtoull(w[6], NULL, 10) ^ 0x77696e646f77ULL ^ sm64_mix(gen_world_seed)); /* what surrounds the view is no operand value: it differs from world to world (the fresh world has gen_world_seed 0) */
     c->hid[r] = P;
     c->m[r] = Lb->mzd_init_window(P, (rci_t)r0, (rci_t)(c0w * 64), (rci_t)(r0 + m), (rci_t)(c0w * 64 + nn));
     c->parent[r] = NREG + (int)r;
